@@ -308,4 +308,25 @@ CHECKS = {
         "design_ref": "DESIGN.md section 4, C18",
         "min_obs": {"datagrams_compared": 2000, "replies_checked": 200, "malformed_frames": 10},
     },
+    "C19": {
+        "scenarios": [("C19-counter", "vsim"), ("C19-account", "vsim"), ("C19-account", "vreal", 0.5), ("C19-quota", "vsim"), ("C19-conc", "vrace")],
+        "races": True,
+        "rule": "(a) a time-series counter under 2600 increments at virtual instants (bursts within a millisecond, gaps of seconds to six "
+                "weeks, extra reads that move the roll-up trigger to every operation count): Load = sum of increments, sum of history "
+                "deltas = Load, history times non-decreasing after every compaction, all-time window = total, random windows <= total, "
+                "additive and monotone, last-second window exact, export/import keeps the total; (b) per-user upload/download counters "
+                "of fresh users equal the bytes the server application read / wrote in 1-3 sessions per user on both transports, with "
+                "read buffers from 7 bytes to 64 KiB, with the input loop held by a hook in half of the cases; (c) quota users (single "
+                "2 MB/day, two quotas 3 MB/day + 5 MB/30 days, none): within allowance never refused, ~4 MiB on a 2 MB quota refused "
+                "with nothing relayed, others unaffected, window rolls after 25 virtual hours; (d) concurrent Add/Load histories "
+                "checked with porcupine under the race detector",
+        "technique": "runtime monitor: conservation invariants on counters over generated histories in virtual time; per-user byte "
+                     "accounting compared with the application boundary; quota outcome oracle; porcupine + race detector",
+        "text": "Window reports are compared with algebraic laws (additivity, monotonicity, bounds) because compaction legitimately "
+                "coarsens timestamps; allowance boundaries are tested one MiB away from the limit (the code counts whole MiB).",
+        "note": "trusted: faketime runtime for multi-week histories; ToMetricPB as the read-out of the history",
+        "design_ref": "DESIGN.md section 4, C19",
+        "min_obs": {"counter_ops": 50000, "windows_checked": 5000, "accounted_bytes": 1000000, "quota_probes": 50},
+        "timeout": {"quick": 900, "thorough": 14000},
+    },
 }
